@@ -31,7 +31,8 @@ LEAN_FILES = ["AurelVerif/Props/C01.lean", "AurelVerif/Lemmas/CacheGet.lean", "A
               "AurelVerif/Model/CacheGet.lean", "AurelVerif/Model/Cache.lean", "AurelVerif/Gen/DepGraph.lean"]
 
 # guards for which a branch-coherence obligation (H2) is registered; a guard text
-# found by the translator that is not listed here is a broken obligation.
+# found by the translator that is not listed here is a broken obligation.  (Short descriptions only: the class of
+# each guard and the theorems that cover it are in COHERENCE_TABLE below, checked by coherence_table().)
 KNOWN_GUARDS = {
     "'betaup3' in self.data": "algebraic (component of the cached vector)",
     "'dtbetaup3' in self.data": "algebraic",
@@ -502,8 +503,259 @@ COHERENCE_THEOREMS = ["AurelVerif.C01Coherence." + t for t in (
     "metric_components_coherent", "metric_tensor_coherent", "curvature_components_coherent",
     "shift_components_coherent", "component_defaults", "s_to_st_coherent", "Ttrace_coherent")] + [
     "AurelVerif.C08.gt_coherent", "AurelVerif.C08.gdet_coherent", "AurelVerif.C09.eos_consistent"]
-COHERENCE_NEEDED = ["gxx", "gxy", "gxz", "gyy", "gyz", "gzz", "gammadown3", "kxx", "Kdown3", "betax", "betaup3",
-                    "dtbetax", "dtbetaup3", "s_to_st", "Ttrace", "gtt", "gdet", "rho0", "eps", "rho"]
+# extension round: class (a) algebraic / class (c) on-shell coherence theorems, the sharper generic theorem, and the
+# sub-table for which H2 is proven outright (see the header comments of the Lean files)
+COHERENCE_A_MODULE = "AurelVerif.Props.C01CoherenceA"
+COHERENCE_A_THEOREMS = ["AurelVerif.C01Coherence." + t for t in (
+    "s_Ricci_down3_coherent", "Momentumup3_components_coherent", "s_to_st_coherent_fun",
+    "st_Riemann_down4_shift_coherent", "st_Weyl_down4_shift_coherent", "eps_coherent_of_rho",
+    "eps_coherent_of_rho0", "rho0_coherent", "st_Ricci_down3_coherent_of_T")] + [
+    "AurelVerif.C04.st_Ricci_down3_coherent", "AurelVerif.C06.Momentumup3_from_components",
+    "AurelVerif.C05.s_Ricci_down3_alt_spec"]
+COHERENCE_C_MODULE = "AurelVerif.Props.C01CoherenceC"
+COHERENCE_C_THEOREMS = ["AurelVerif.C01Coherence." + t for t in (
+    "contraction_is_ricciDown", "st_Ricci_down4_dflt_is_ricci", "st_Ricci_down4_Tdown4_is_matter",
+    "st_Ricci_down4_onshell_coherent", "st_Ricci_down4_onshell_coherent_noshift", "st_Ricci_down4_vacuum_coherent",
+    "st_Ricci_down3_onshell_coherent", "exOn_hyp", "exOn_cached", "exOn_onshell", "exKas_ricci_full", "exKasV_hyp",
+    "exKasM_hyp", "exKasM_onshell")]
+SHARP_MODULE = "AurelVerif.Props.C01M"
+SHARP_THEOREMS = ["AurelVerif.C01." + t for t in (
+    "get_transparent_sharp", "history_values_sharp", "tableCoh_implies_sharp", "flag_guard_constant",
+    "methodless_guard_constant", "aurel_methodless", "tExM_cohM", "tExM_not_coh")]
+SUB_MODULE = "AurelVerif.Props.C01Sub"
+SUB_THEOREMS = ["AurelVerif.C01Sub." + t for t in (
+    "TSub_shapes_generated", "denSub_inputs", "sub_cohM", "sub_transparent", "polAggr_ok", "polKeep_ok")]
+COHERENCE_NEEDED = ["gxx", "gxy", "gxz", "gyy", "gyz", "gzz", "gammadown3", "kxx", "kxy", "kxz", "kyy", "kyz", "kzz",
+                    "Kdown3", "betax", "betay", "betaz", "betaup3", "dtbetax", "dtbetay", "dtbetaz", "dtbetaup3",
+                    "s_to_st", "Ttrace", "gtt", "gtx", "gty", "gtz", "gdet", "rho0", "eps", "rho",
+                    "s_Ricci_down3", "s_Riemann_down3", "s_Riemann_uddd3", "Momentumup3", "Momentumx", "Momentumy",
+                    "Momentumz", "st_Riemann_down4", "st_Riemann_uddd4", "st_Ricci_down4", "st_Ricci_down3",
+                    "st_Weyl_down4"]
+COHERENCE_LEAN_FILES = ["AurelVerif/Props/C01Coherence.lean", "AurelVerif/Props/C01CoherenceA.lean",
+                        "AurelVerif/Props/C01CoherenceC.lean", "AurelVerif/Props/C01M.lean",
+                        "AurelVerif/Props/C01Sub.lean", "AurelVerif/Lemmas/CacheGetM.lean"]
+
+# --------------------------------------------------------------------------
+# the coherence table: every guard of the source -> class -> covering theorems
+# --------------------------------------------------------------------------
+# class  a        algebraically coherent: equal for every input / field / operator D, given that the cached entries
+#                 read were produced by the code's own formulas (hypotheses e.X = X e) [and gamma^-1 gamma = 1]
+#        b        coherent only up to discretisation (Leibniz / commuting D): no guard is of this class alone; every
+#                 class c theorem is also Layer B (CurvHyp)
+#        c        coherent only on solutions of Einstein's equations (explicit hypothesis OnShell) and Layer B
+#        option   physical option, constant along a history: nothing to prove beyond C01.flag_guard_constant
+#        input-only  presence test of a name without a method: constant along a history (C01.methodless_guard_constant)
+# fields: methods  = methods that may test this guard (a guard text met in another method is UNCOVERED)
+#         covers   = generated alternatives (translator index names) whose agreement the theorems establish
+#         mention  = those of `covers` that must occur textually in the statement of one of the `decls`
+#         decls    = (Lean file, declaration) whose statement (theorem) / body (def, structure) is searched
+#         gap      = explanation when NO theorem covers the guard (known gap: the oracle is the only cover)
+P = "AurelVerif/Props/"
+_COMPONENT_DECLS = [(P + "C01Sub.lean", "leafSub"), (P + "C01Sub.lean", "sub_cohM")]
+
+
+def _alts(keys, sufs):
+    return [k + "__" + s for k in keys for s in sufs]
+
+
+COHERENCE_TABLE = [
+    {"guard": "'betaup3' in self.data", "class": "a", "methods": ["betax", "betay", "betaz"],
+     "covers": _alts(["betax", "betay", "betaz"], ["dflt", "betaup3"]),
+     "theorems": ["AurelVerif.C01Coherence.shift_components_coherent", "AurelVerif.C01Coherence.component_defaults",
+                  "AurelVerif.C01Sub.sub_cohM"],
+     "decls": [(P + "C01Coherence.lean", "shift_components_coherent")] + _COMPONENT_DECLS,
+     "note": "H2 proven outright for the sub-table (no hypothesis on the bodies): C01Sub.sub_transparent"},
+    {"guard": "'dtbetaup3' in self.data", "class": "a", "methods": ["dtbetax", "dtbetay", "dtbetaz"],
+     "covers": _alts(["dtbetax", "dtbetay", "dtbetaz"], ["dflt", "dtbetaup3"]),
+     "theorems": ["AurelVerif.C01Coherence.shift_components_coherent", "AurelVerif.C01Sub.sub_cohM"],
+     "decls": [(P + "C01Coherence.lean", "shift_components_coherent")] + _COMPONENT_DECLS,
+     "note": "sub-table: C01Sub.sub_transparent"},
+    {"guard": "'gammadown3' in self.data", "class": "a", "methods": ["gxx", "gxy", "gxz", "gyy", "gyz", "gzz"],
+     "covers": _alts(["gxx", "gxy", "gxz", "gyy", "gyz", "gzz"], ["dflt", "gammadown3"]),
+     "theorems": ["AurelVerif.C01Coherence.metric_components_coherent", "AurelVerif.C01Coherence.metric_tensor_coherent",
+                  "AurelVerif.C01Coherence.component_defaults", "AurelVerif.C01Sub.sub_cohM"],
+     "decls": [(P + "C01Coherence.lean", "metric_components_coherent")] + _COMPONENT_DECLS,
+     "note": "sub-table: C01Sub.sub_transparent"},
+    {"guard": "'Kdown3' in self.data", "class": "a", "methods": ["kxx", "kxy", "kxz", "kyy", "kyz", "kzz"],
+     "covers": _alts(["kxx", "kxy", "kxz", "kyy", "kyz", "kzz"], ["dflt", "Kdown3"]),
+     "theorems": ["AurelVerif.C01Coherence.curvature_components_coherent", "AurelVerif.C01Sub.sub_cohM"],
+     "decls": [(P + "C01Coherence.lean", "curvature_components_coherent")] + _COMPONENT_DECLS,
+     "note": "sub-table: C01Sub.sub_transparent"},
+    {"guard": "'gdown4' in self.data", "class": "a", "methods": ["gdet", "gtt", "gtx", "gty", "gtz"],
+     "covers": _alts(["gtt", "gtx", "gty", "gtz", "gdet"], ["dflt", "gdown4"]),
+     "theorems": ["AurelVerif.C08.gt_coherent", "AurelVerif.C08.gdet_coherent"],
+     "decls": [(P + "C08.lean", "gt_coherent"), (P + "C08.lean", "gdet_coherent"), (P + "C08.lean", "Assembled")],
+     "note": "needs the assembled metric (C08.Assembled: gtt, gdown4, betadown3, betamag produced by the code; gamma symmetric)"},
+    {"guard": "'rho' in self.data", "class": "a", "methods": ["rho0"], "covers": ["rho0__dflt", "rho0__rho"],
+     "theorems": ["AurelVerif.C01Coherence.rho0_coherent", "AurelVerif.C09.eos_consistent", "AurelVerif.C01Sub.sub_cohM"],
+     "decls": [(P + "C01CoherenceA.lean", "rho0_coherent")] + _COMPONENT_DECLS,
+     "note": "sub-table: C01Sub.sub_transparent (all input combinations of rho0, eps, rho, incl. rho0 = 0)"},
+    {"guard": "'rho' in self.data and 'rho0' in self.data", "class": "a", "methods": ["eps"],
+     "covers": ["eps__dflt", "eps__rho_and_rho0"],
+     "theorems": ["AurelVerif.C01Coherence.eps_coherent_of_rho", "AurelVerif.C01Coherence.eps_coherent_of_rho0",
+                  "AurelVerif.C09.eos_consistent", "AurelVerif.C01Sub.sub_cohM"],
+     "decls": [(P + "C01CoherenceA.lean", "eps_coherent_of_rho"), (P + "C01CoherenceA.lean", "eps_coherent_of_rho0")]
+     + _COMPONENT_DECLS,
+     "note": "sub-table: C01Sub.sub_transparent"},
+    {"guard": "'Tdown4' not in self.data", "class": "a", "methods": ["Ttrace"], "covers": ["Ttrace__dflt", "Ttrace__Tdown4"],
+     "theorems": ["AurelVerif.C01Coherence.Ttrace_coherent"], "decls": [(P + "C01Coherence.lean", "Ttrace_coherent")],
+     "note": "needs the 3+1 form g^ab = gamma^ab - n^a n^b of the cached inverse metric (C04.gup4_3p1: alpha != 0, det gamma != 0)"},
+    {"guard": "'s_Riemann_down3' in self.data.keys()", "class": "a", "methods": ["s_Ricci_down3"],
+     "covers": ["s_Ricci_down3__dflt", "s_Ricci_down3__s_Riemann_down3"],
+     "theorems": ["AurelVerif.C01Coherence.s_Ricci_down3_coherent", "AurelVerif.C05.s_Ricci_down3_alt_spec"],
+     "decls": [(P + "C01CoherenceA.lean", "s_Ricci_down3_coherent")],
+     "note": "exact for every operator D; needs gamma^-1 gamma = 1"},
+    {"guard": "all((k in self.data.keys() for k in ('Momentumx', 'Momentumy', 'Momentumz')))", "class": "a",
+     "methods": ["Momentumup3"],
+     "covers": ["Momentumup3__Momentumx_and_Momentumy_and_Momentumz", "Momentumup3__dflt_matter", "Momentumup3__dflt_vacuum"],
+     "mention": ["Momentumup3__Momentumx_and_Momentumy_and_Momentumz"],
+     "theorems": ["AurelVerif.C01Coherence.Momentumup3_components_coherent", "AurelVerif.C06.Momentumup3_from_components"],
+     "decls": [(P + "C01CoherenceA.lean", "Momentumup3_components_coherent")],
+     "note": "the components read the cached vector back (whichever alternative produced it)"},
+    {"guard": "not any((k in self.data for k in ('betaup3', 'betax', 'betay', 'betaz')))", "class": "a",
+     "methods": ["s_to_st", "st_Riemann_down4", "st_Weyl_down4"],
+     "covers": ["s_to_st__dflt", "s_to_st__betaup3", "st_Riemann_down4__dflt_matter", "st_Riemann_down4__betaup3_matter",
+                "st_Riemann_down4__dflt_vacuum", "st_Riemann_down4__betaup3_vacuum", "st_Weyl_down4__dflt",
+                "st_Weyl_down4__betaup3"],
+     "theorems": ["AurelVerif.C01Coherence.s_to_st_coherent", "AurelVerif.C01Coherence.st_Riemann_down4_shift_coherent",
+                  "AurelVerif.C01Coherence.st_Weyl_down4_shift_coherent"],
+     "decls": [(P + "C01Coherence.lean", "s_to_st_coherent"), (P + "C01CoherenceA.lean", "st_Riemann_down4_shift_coherent"),
+               (P + "C01CoherenceA.lean", "st_Weyl_down4_shift_coherent")],
+     "note": "beta = 0 is the denotation of betaup3 when no shift key is supplied (component defaults)"},
+    {"guard": "'st_Ricci_down4' in self.data.keys()", "class": "a / c", "methods": ["st_Ricci_down3"],
+     "covers": ["st_Ricci_down3__dflt", "st_Ricci_down3__st_Ricci_down4"],
+     "theorems": ["AurelVerif.C01Coherence.st_Ricci_down3_coherent_of_T", "AurelVerif.C01Coherence.st_Ricci_down3_onshell_coherent"],
+     "decls": [(P + "C01CoherenceA.lean", "st_Ricci_down3_coherent_of_T"), (P + "C01CoherenceC.lean", "st_Ricci_down3_onshell_coherent")],
+     "note": "class a when the cached st_Ricci_down4 came from Tdown4; class c (on shell, Layer B) when it is the "
+             "contraction of the cached Riemann tensor"},
+    {"guard": "'Tdown4' in self.data.keys()", "class": "c", "methods": ["st_Ricci_down4"],
+     "covers": ["st_Ricci_down4__dflt", "st_Ricci_down4__Tdown4"],
+     "theorems": ["AurelVerif.C01Coherence.st_Ricci_down4_onshell_coherent",
+                  "AurelVerif.C01Coherence.st_Ricci_down4_onshell_coherent_noshift",
+                  "AurelVerif.C01Coherence.st_Ricci_down4_vacuum_coherent"],
+     "decls": [(P + "C01CoherenceC.lean", "st_Ricci_down4_onshell_coherent")],
+     "note": "on solutions of Einstein's equations only (hypothesis OnShell), exact differentiation (CurvHyp); false off shell"},
+    {"guard": "'st_Riemann_down4' in self.data.keys()", "class": "c", "methods": ["st_Weyl_down4"],
+     "covers": ["st_Weyl_down4__st_Riemann_down4_matter", "st_Weyl_down4__st_Riemann_down4_vacuum"],
+     "mention": [],
+     "theorems": [], "decls": [],
+     "partial": ["AurelVerif.C10.weyl_alt1_weylLike", "AurelVerif.C10.weyl_alt2_weylLike",
+                 "AurelVerif.C10.weyl_alt2_normal_frame"],
+     "gap": "Riemann-based vs E/B-based Weyl tensor: NOT a theorem. Proven: both are tensors with the Weyl symmetries, "
+            "the E/B form has electric/magnetic parts s_to_st(E), s_to_st(B). Missing: the electric/magnetic parts of the "
+            "Riemann-based tensor are the code's eweyl_n_down3/bweyl_n_down3 (Gauss, Codazzi, Mainardi + Einstein) and "
+            "that a Weyl-like tensor is determined by them. Covered by the C01/C10 oracles on exact solutions only."},
+    {"guard": "self.vacuum", "class": "option",
+     "methods": ["Hamiltonian", "Hamiltonian_Escale", "Momentum_Escale", "Momentumup3", "dtAdown3_bssnok", "dtKtrace",
+                 "dts_Gamma_bssnok", "eweyl_n_down3", "st_Riemann_down4", "st_Weyl_down4"],
+     "covers": [], "theorems": ["AurelVerif.C01.flag_guard_constant"], "decls": [],
+     "note": "constant along a history; the two values are different quantities, not alternatives"},
+    {"guard": "self.tetrad == 'quasi-Kinnersley'", "class": "option", "methods": ["Weyl_Psi", "null_vector_base", "tetrad_base"],
+     "covers": [], "theorems": ["AurelVerif.C01.flag_guard_constant"], "decls": [], "note": "constant along a history"},
+    {"guard": "'Weyl_Psi4r' in self.data.keys()", "class": "input-only", "methods": ["Weyl_Psi"], "covers": [],
+     "theorems": ["AurelVerif.C01.methodless_guard_constant", "AurelVerif.C01.aurel_methodless",
+                  "AurelVerif.C01.get_transparent_sharp"], "decls": [],
+     "note": "Weyl_Psi4r has no method: cached iff supplied, so the outcome never changes along a history"},
+]
+
+
+def _decl_text(relpath, name):
+    """statement of a theorem (text up to the first ':=') or whole body of a def/structure/macro in a Lean file"""
+    import os
+    import re
+    try:
+        src = open(os.path.join(fw.LEAN, relpath)).read()
+    except OSError:
+        return None
+    m = re.search(r"^(theorem|def|structure)\s+" + re.escape(name) + r"\b", src, re.M)
+    if not m:
+        return None
+    rest = src[m.start():]
+    end = re.search(r"^(theorem|def|structure|example|macro|syntax|end|section|namespace|open|set_option|/--|/-!|@\[)",
+                    rest[len(m.group(0)):], re.M)
+    body = rest[: len(m.group(0)) + end.start()] if end else rest
+    if m.group(1) == "theorem":
+        cut = body.find(":=")
+        body = body[:cut] if cut >= 0 else body
+    return body
+
+
+def coherence_table(ctx, info, index, proven):
+    """Machine-readable table of ALL guards (AST translator) and ALL multi-alternative definitions (symbolic-execution
+    translator) of the CURRENT source, with class and covering theorems; anything the registry does not cover is
+    reported (evidence `coherence_table.uncovered`) and is a broken obligation."""
+    import re
+    rows, uncovered = [], []
+    reg = {r["guard"]: r for r in COHERENCE_TABLE}
+    # alternatives recorded by the symbolic-execution translator, per key (presence-guarded ones only)
+    alts = {}
+    for i in index:
+        if i.get("status") == "ok" and "__" in i["name"]:
+            alts.setdefault(i["key"], []).append(i)
+    need = {}        # alternative name -> key, for keys whose alternatives depend on the cache content
+    for k, lst in alts.items():
+        if any(i.get("guard_keys") for i in lst):
+            for i in lst:
+                need[i["name"]] = k
+    covered_by = {}
+    for g in sorted(set(info["guards"]) | set(reg)):
+        r = reg.get(g)
+        meths = sorted(info["guards"].get(g, []))
+        if r is None:
+            uncovered.append("guard %r (tested in %s): no registered coherence theorem" % (g, meths))
+            rows.append({"guard": g, "tested_in": meths, "class": "UNREGISTERED", "theorems": [], "status": "UNCOVERED"})
+            continue
+        problems = []
+        if g not in info["guards"]:
+            problems.append("guard no longer in the source")
+        extra = [m for m in meths if m not in r["methods"]]
+        if extra:
+            problems.append("also tested in %s (no coherence theorem for those methods)" % extra)
+        texts = []
+        for f, d in r["decls"]:
+            t = _decl_text(f, d)
+            if t is None:
+                problems.append("declaration %s not found in %s" % (d, f))
+            else:
+                texts.append(t)
+        text = "\n".join(texts)
+        for a in r.get("mention", r["covers"]):
+            if not re.search(r"\b" + re.escape(a) + r"\b", text):
+                problems.append("alternative %s is not mentioned by %s" % (a, [d for _, d in r["decls"]]))
+        for a in r["covers"]:
+            if a not in need and not r.get("gap"):
+                problems.append("alternative %s is no longer generated" % a)
+            covered_by.setdefault(a, []).append(g)
+        unproven = [t for t in r["theorems"] if not proven.get(t)]
+        if unproven:
+            problems.append("not proven now: %s" % unproven)
+        status = "known gap (oracle only)" if r.get("gap") else ("proven" if not problems else "BROKEN")
+        if problems:
+            uncovered.append("guard %r: %s" % (g, "; ".join(problems)))
+            status = "BROKEN"
+        rows.append({"guard": g, "tested_in": meths, "class": r["class"], "alternatives": r["covers"],
+                     "theorems": r["theorems"], "partial_theorems": r.get("partial", []), "status": status,
+                     "note": r.get("gap") or r.get("note", "")})
+    gaps = {a for r in COHERENCE_TABLE if r.get("gap") for a in r["covers"]}
+    for a, k in sorted(need.items()):
+        if a not in covered_by:
+            uncovered.append("alternative %s of %s (generated from the current source): no coherence theorem" % (a, k))
+            rows.append({"guard": "?", "tested_in": [k], "class": "UNREGISTERED", "alternatives": [a], "theorems": [],
+                         "status": "UNCOVERED"})
+    flag_only = sorted(k for k, lst in alts.items() if not any(i.get("guard_keys") for i in lst))
+    ctx.cov["coherence_table"] = {
+        "rows": rows, "uncovered": uncovered,
+        "classes": {c: sorted(r["guard"] for r in rows if r["class"] == c) for c in sorted({r["class"] for r in rows})},
+        "alternatives_needing_coherence": len(need), "alternatives_with_theorem": len([a for a in need if a in covered_by and a not in gaps]),
+        "alternatives_known_gap": sorted(a for a in need if a in gaps),
+        "keys_whose_alternatives_differ_by_option_only": flag_only,
+        "sub_table_with_H2_proven_outright": "25 keys (C01Sub.sub_transparent): betax..betaup3, dtbetax..dtbetaup3, "
+                                             "gxx..gammadown3, kxx..Kdown3, rho0, eps, rho"}
+    ctx.obligation("coherence coverage: every guard and every cache-dependent alternative of the current source has a "
+                   "proven coherence theorem (%d guards, %d alternatives, %d known gap)"
+                   % (len(info["guards"]), len(need), len([a for a in need if a in gaps])),
+                   not uncovered, "; ".join(uncovered)[:1800], kind="translation")
+    return rows
 
 
 def run(ctx):
@@ -514,9 +766,14 @@ def run(ctx):
                     "numpy is deterministic: the same sequence of operations on the same inputs gives the same bits"]
     ctx.assumptions += [
         "values are immutable (no in-place modification of cached arrays): property C02",
-        "branch coherence H2 (hypothesis TableCoh of get_transparent) for the real formulas is NOT proven here: the "
-        "guards found by the translator are listed below as coherence obligations assumed here, proven/validated "
-        "elsewhere; the search oracle compares the real values instead",
+        "branch coherence H2 (hypothesis TableCoh / TableCohM of the generic theorem) for the real formulas: one row per "
+        "guard in evidence `coherence_table` (generated from the translators' indices of the CURRENT source). Class a "
+        "(algebraic) and class c (on solutions of Einstein's equations, exact differentiation) rows are Lean theorems about "
+        "the generated formulas; for 25 keys (component/tensor keys, rho0/eps/rho) H2 is proven outright and the transparency "
+        "theorem has no hypothesis left about the bodies (C01Sub.sub_transparent). NOT a theorem: Riemann-based vs E/B-based "
+        "st_Weyl_down4 (row `known gap`); the class a / c theorems are stated per guard with hypotheses `e.X = X e` (cached entry "
+        "produced by the code's formula) and are not assembled into ONE TableCoh instance for the whole 161-key table. The "
+        "search oracle compares the real values",
         "oracle tolerances: bitwise when history and fresh instance used the same alternatives everywhere in the "
         "computation tree; %g relative when only algebraically equivalent alternatives differ; alternatives that agree "
         "only on solutions of Einstein's equations (st_Ricci_down4, st_Ricci_down3, st_Weyl_down4, Weyl_Psi with Psi4 "
@@ -540,7 +797,7 @@ def run(ctx):
         new = sorted(g for g in info["guards"] if g not in KNOWN_GUARDS)
         ctx.obligation("guards have registered coherence obligations", not new,
                        "new guard(s) without coherence obligation: %s" % new, kind="translation")
-        ctx.cov["coherence_obligations_assumed_here_proven_or_validated_elsewhere"] = {
+        ctx.cov["guards_in_source"] = {
             g: {"tested_in": info["guards"][g], "kind": KNOWN_GUARDS.get(g, "UNREGISTERED")} for g in sorted(info["guards"])}
         ctx.cov["opaque_value_tests"] = info["flags"]
         ctx.cov["input_only_names"] = info["extra"]
@@ -551,17 +808,27 @@ def run(ctx):
     ctx.prove(MODULE, THEOREMS)
     ctx.forbidden_scan(LEAN_FILES)
     # branch coherence (H2) of the REAL formulas: theorems about the alternatives regenerated from
-    # core.py by symbolic execution (lead's part; see Props/C01Coherence.lean for what is proven where)
+    # core.py by symbolic execution (see Props/C01Coherence{,A,C}.lean, Props/C01M.lean, Props/C01Sub.lean)
     try:
         from lib import corecheck
         r = corecheck.regen_and_validate(ctx, COHERENCE_NEEDED)
         if r is not None:
             ctx.prove(COHERENCE_MODULE, COHERENCE_THEOREMS, timeout=2400)
-            ctx.forbidden_scan(["AurelVerif/Props/C01Coherence.lean"])
+            ctx.prove(COHERENCE_A_MODULE, COHERENCE_A_THEOREMS, timeout=2400)
+            ctx.prove(COHERENCE_C_MODULE, COHERENCE_C_THEOREMS, timeout=2400)
+            ctx.prove(SHARP_MODULE, SHARP_THEOREMS, timeout=2400)
+            ctx.prove(SUB_MODULE, SUB_THEOREMS, timeout=2400)
+            ctx.forbidden_scan(COHERENCE_LEAN_FILES)
+            if info is not None:
+                proven = {o["name"]: o["ok"] for o in ctx.obligs if o["kind"] == "theorem"}
+                coherence_table(ctx, info, r[2], proven)
+        elif info is not None:
+            ctx.obligation("coherence coverage", False, "the core translator failed: the alternatives of the current "
+                           "source are unknown", kind="translation")
     except Exception as ex:  # noqa
         ctx.obligation("coherence theorems", False, "could not be checked: %r" % ex)
     if ctx.tier == "thorough":
-        ctx.leanchecker([MODULE])
+        ctx.leanchecker([MODULE, SHARP_MODULE, SUB_MODULE])
     # correspondence (bookkeeping) — shared harness with C03
     runs = C03.correspondence(ctx, "C01", ctx.budget(12, 60), ctx.budget(30, 60))
     # independent search oracle (always; larger when something is broken)
@@ -592,16 +859,34 @@ def replay(ctx, obj):
 MANIFEST = {
     "category": "proof",
     "technique": "Lean 4: generic transparency theorem over an abstract definition table and an arbitrary eviction policy; "
-                 "kernel-decided rank condition on the dependency graph regenerated from core.py; trace replay and "
-                 "translation validation against the real AurelCore; history-vs-fresh-instance oracle",
+                 "kernel-decided rank condition on the dependency graph regenerated from core.py; branch-coherence theorems "
+                 "(algebraic / on-shell) about the formulas regenerated from core.py by symbolic execution, with a generated "
+                 "guard-coverage table; trace replay and translation validation against the real AurelCore; "
+                 "history-vs-fresh-instance oracle",
     "text": "Proof (generic): for every definition table, every frozen input set, every eviction policy that removes only "
             "non-frozen entries (the real clean-up is proven to be one, for every period/threshold/importance), every "
             "finite history and final request, the value returned equals the one a fresh instance returns, given branch "
-            "coherence of the alternatives. Proof (real code): the dependency graph regenerated from core.py on every run "
-            "satisfies the rank condition (kernel-checked), hence no request can recurse without end or hit a missing "
-            "self.data entry whatever is evicted. Branch coherence of the real formulas is an explicit hypothesis here "
-            "(guards listed in evidence) and is exercised by the history-vs-fresh oracle on the real code.",
+            "coherence of the alternatives (get_transparent; get_transparent_sharp needs coherence only for test outcomes "
+            "that can change along a history: physical options and names without a method, e.g. Weyl_Psi4r, are excluded). "
+            "Proof (real code): the dependency graph regenerated from core.py on every run satisfies the rank condition "
+            "(kernel-checked), hence no request can recurse without end or hit a missing self.data entry whatever is "
+            "evicted. Branch coherence of the real formulas: every one of the 17 guards found in the source is classified "
+            "in a table generated on every run (evidence coherence_table) and, except one, covered by Lean theorems about "
+            "the generated alternatives: algebraic coherence (equal for every input, field and difference operator, given "
+            "that the cached entries were produced by the code's formulas) for the component/tensor keys, gtt..gdet, "
+            "rho0/eps/rho, Ttrace, s_Ricci_down3, Momentumup3, the zero-shift shortcut inside s_to_st, st_Riemann_down4 and "
+            "st_Weyl_down4 (all 256 components), st_Ricci_down3 from a Tdown4-based st_Ricci_down4; coherence on solutions of "
+            "Einstein's equations (explicit hypothesis OnShell, exact differentiation) for st_Ricci_down4 (contraction of the "
+            "cached Riemann tensor vs Lambda g + kappa (T - T g/2)) and st_Ricci_down3 from it. For a sub-table of 25 keys "
+            "(betax..betaup3, dtbetax..dtbetaup3, gxx..gammadown3, kxx..Kdown3, rho0, eps, rho) with the generated shapes "
+            "and the generated formulas, coherence is proven for EVERY input dictionary and the transparency theorem holds "
+            "with no hypothesis about the bodies (C01Sub.sub_transparent). A guard or cache-dependent alternative that "
+            "appears in the source without a registered, proven theorem is reported as uncovered and breaks an obligation.",
     "note": "Trusted: Lean kernel + standard axioms; the AST translator of the dependency shapes (validated against every "
-            "recorded real miss); the hand models (trace replay). NOT proven here: H2 for the real einsum bodies; numerical "
-            "closeness of alternatives that agree only on solutions. In-place mutation is C02.",
+            "recorded real miss); the symbolic-execution translator of the formulas (translation validation each run); the "
+            "hand models (trace replay). NOT proven: coherence of the Riemann-based and the E/B-based st_Weyl_down4 (needs: "
+            "electric/magnetic parts of the Riemann-based tensor are eweyl_n/bweyl_n, and uniqueness of a Weyl-like tensor "
+            "with given parts) - oracle only; the per-guard theorems outside the 25-key sub-table are not assembled into one "
+            "TableCoh instance; numerical closeness (discretisation error) of the class c alternatives; that the data solve "
+            "Einstein's equations. In-place mutation is C02.",
 }
